@@ -239,6 +239,7 @@ struct Knobs {
   double split_p = 0.3;        // probability that a stream read is split
   double dir_shuffle_p = 0.5;
   uint64_t max_steps = 200000;
+  uint64_t cpu_steps = 2000;   // yield points without clock movement that cost one virtual second
   int64_t max_sim_s = 60LL * 86400;
   size_t alloc_cap = 256u << 20;
 };
@@ -255,6 +256,7 @@ struct Kernel {
   int64_t clock = 1000000000; int64_t start_clock_ = 1000000000;
   uint64_t seq = 0;           // event sequence
   uint64_t steps = 0;         // yield points
+  int64_t last_clock_seen = 0; uint64_t steps_at_clock = 0;
   Hash64 trace_hash;
   std::map<uint64_t, Inode *> inodes; uint64_t next_ino = 100; Inode *root = nullptr;
   std::map<int, Proc *> procs; int next_pid = 300;
